@@ -172,6 +172,9 @@ pub struct Piece {
 pub struct ModStats {
     pub modules: usize,
     pub requires_with_modifiers: usize,
+    /// contracted imports whose alias was made unique per importing module (known finding excluded by construction)
+    #[serde(default)]
+    pub excluded_contract_alias: usize,
     pub private_probes: usize,
     pub unimported_probes: usize,
     pub main_defines_clashing: usize,
@@ -209,12 +212,36 @@ pub fn generate(data: &[u16], max_pieces: usize) -> Script {
             if provided.is_empty() {
                 continue;
             }
-            let prefix = if c.chance(1, 2) { Some(format!("{}:", ["p", "q", "lib", "m"][c.below(4)])) } else { None };
+            // Known finding KF-C14-contract-import-same-alias: two modules of one dependency chain that import a
+            // contract/out provide under the same *new* spelling (rename or prefix) fail to compile.  Excluded by
+            // construction: the new spelling of a contracted import carries the importing module's index.
+            let has_contract = w.mods[j].defs.iter().any(|d| d.provided && d.contract);
+            let prefix = if c.chance(1, 2) {
+                let base = ["p", "q", "lib", "m"][c.below(4)];
+                if has_contract {
+                    st.excluded_contract_alias += 1;
+                    Some(format!("{}{}:", base, i))
+                } else {
+                    Some(format!("{}:", base))
+                }
+            } else {
+                None
+            };
             let only = if c.chance(1, 2) {
                 let mut sel = vec![];
                 for p in &provided {
                     if c.chance(2, 3) {
-                        let newname = if c.chance(1, 3) { format!("{}-of-{}", p, w.mods[j].name) } else { p.clone() };
+                        let contracted = w.mods[j].defs.iter().any(|d| d.name == *p && d.contract);
+                        let newname = if c.chance(1, 3) {
+                            if contracted {
+                                st.excluded_contract_alias += 1;
+                                format!("{}-of-{}-in-m{}", p, w.mods[j].name, i)
+                            } else {
+                                format!("{}-of-{}", p, w.mods[j].name)
+                            }
+                        } else {
+                            p.clone()
+                        };
                         sel.push((p.clone(), newname));
                     }
                 }
